@@ -23,6 +23,9 @@ THEOREMS = [
     "Cv.C12e.encoded_findPath_valid_single_word",
     "Cv.C12e.encoded_findPath_shortest_single_word",
     "Cv.C12e.encoded1d_findPath_eq",
+    "Cv.C12m.mat_precomputeBfs_isBall",
+    "Cv.C12m.mat_findPath_valid",
+    "Cv.C12m.mat_findPath_shortest",
 ]
 
 
@@ -138,7 +141,7 @@ def main():
         body = json.load(open(os.path.join(VERIF, ck.replay) if not os.path.isabs(ck.replay) else ck.replay))
         ck.guard(run_case, ck, body["case"])
         ck.finish(rule="replay of one recorded case")
-    ck.lean_obligations(["CvProps.C12", "CvProps.C12e"], THEOREMS)
+    ck.lean_obligations(["CvProps.C12", "CvProps.C12e", "CvProps.C12m"], THEOREMS)
     for case in json.load(open(os.path.join(VERIF, "harness", "corpus", "C12.json"))):
         ck.guard(run_case, ck, case)
         ck.count("corpus")
